@@ -304,7 +304,6 @@ func (fs *fsMutable) MkDir(
 
 	err = fs.preCreateCheck(op.Parent, lk)
 	if err != nil {
-		fs.lock.Unlock()
 		return
 	}
 
